@@ -173,6 +173,32 @@ class Program:
             self._index_module(m)
         for c in self.classes.values():
             c.bases = [self._resolve_base(c, b) for b in c.base_exprs]
+        self._adopt_formatters()
+
+    def _adopt_formatters(self):
+        """The output formatter of a detector base class is found by WHAT IT DOES when it does not carry its usual name:
+        a function of the class's module that builds the sparse frame (a dict display with the key "ilocs" - plus
+        "icolumns" for the subset type, without it for the others).  It is entered in the class's method table under the
+        usual name, with `owner_cls` set, so that the rules (which summarise / analyse "the formatter of class C") find
+        it whether it is a static method or a module-level function."""
+        for c in self.classes.values():
+            if not c.name.endswith("Detector") or "_format_sparse_output" in c.methods:
+                continue
+            if not any(isinstance(b, ClassInfo) and b.name == "BaseDetector" for b in c.bases):
+                continue
+            want_icols = "Subset" in c.name
+            cands = []
+            for f in c.module.functions.values():
+                keys = set()
+                for n in ast.walk(f.node):
+                    if isinstance(n, ast.Dict):
+                        keys |= {k.value for k in n.keys if isinstance(k, ast.Constant) and isinstance(k.value, str)}
+                if "ilocs" in keys and (("icolumns" in keys) == want_icols):
+                    cands.append(f)
+            if len(cands) == 1:
+                f = cands[0]
+                f.owner_cls = c
+                c.methods["_format_sparse_output"] = f
 
     def _index_module(self, m: ModuleInfo):
         for st in m.tree.body:
